@@ -1,9 +1,9 @@
 SPECIFICATION Spec
 CONSTANT MaxIv = 3
-CONSTANT Horizon = 6
-CONSTANT MaxD = 4
+CONSTANT Horizon = 5
+CONSTANT MaxD = 3
 CONSTANT MaxOps = 6
-CONSTANT Stricts = {TRUE}
+CONSTANT Stricts = {FALSE}
 CONSTANT T0s = {2}
 CONSTRAINT Bound
 VIEW View
